@@ -337,5 +337,118 @@ theorem run_refines (hnf : 0 < c.nf) (hrep : c.rep ≠ 0) (ops : List Op) (st : 
     simp only [run, specRun]
     rw [ih _ _ hR, ha, hs, hl]
 
+/-! ## the closed form: `r` passes of `0 … nf-1`, then StopIteration -/
+
+/-- the specification's state after a history -/
+def specFinal (sp : Sp) : List Op → Sp
+  | [] => sp
+  | op :: ops => specFinal (specStep (α := α) c rf sp op).1 ops
+
+theorem specRun_append (a b : List Op) : ∀ sp : Sp,
+    specRun c rf sp (a ++ b) = specRun c rf sp a ++ specRun c rf (specFinal c rf sp a) b := by
+  induction a with
+  | nil => intro sp; rfl
+  | cons op ops ih => intro sp; simp only [List.cons_append, specRun, specFinal, ih, List.cons_append]
+
+/-- inside a pass labelled `ℓ` (`loop_no`), positioned at frame `k`, size `z` -/
+def InPass (sp : Sp) (k : Nat) (ℓ : Int) (z : Nat) : Prop :=
+  sp.started = true ∧ sp.closed = false ∧ sp.nxt = k ∧ sp.rep = ℓ ∧ sp.loopNo = some ℓ ∧ sp.size = z
+
+/-- the observations of `m` frames `a, a+1, …` of a pass labelled `ℓ` -/
+def passObs (ℓ : Int) (z a m : Nat) : List (Obs α) :=
+  (List.range m).map (fun j => ⟨.frame (some (rf (a + j) z)), a + j, some ℓ⟩)
+
+theorem passObs_succ (ℓ : Int) (z a m : Nat) :
+    passObs rf ℓ z a (m + 1) = (⟨.frame (some (rf a z)), a, some ℓ⟩ : Obs α) :: passObs rf ℓ z (a + 1) m := by
+  simp only [passObs, List.range_succ_eq_map, List.map_cons, List.map_map, Nat.add_zero]
+  congr 1
+  apply List.map_congr_left
+  intro j _
+  simp [Nat.add_assoc, Nat.add_comm 1 j]
+
+theorem inPass_run (m : Nat) : ∀ (sp : Sp) (k : Nat) (ℓ : Int) (z : Nat), InPass sp k ℓ z → k + m ≤ c.nf →
+    specRun c rf sp (List.replicate m .next) = passObs rf ℓ z k m ∧
+    InPass (specFinal c rf sp (List.replicate m .next)) (k + m) ℓ z := by
+  induction m with
+  | zero => intro sp k ℓ z h _; exact ⟨rfl, by simpa [specFinal] using h⟩
+  | succ m ih =>
+    intro sp k ℓ z h hm
+    obtain ⟨hs, hc, hn, hr, hl, hz⟩ := h
+    have hlt : sp.nxt < c.nf := by omega
+    have hstep : specStep c rf sp .next =
+        ({ sp with seekPos := sp.nxt, nxt := sp.nxt + 1 }, (.frame (some (rf sp.nxt sp.size)) : Ans α)) := by
+      simp [specStep, hc, hs, hlt]
+    have hin : InPass { sp with seekPos := sp.nxt, nxt := sp.nxt + 1 } (k + 1) ℓ z :=
+      ⟨hs, hc, by simp [hn], hr, hl, hz⟩
+    obtain ⟨h1, h2⟩ := ih _ (k + 1) ℓ z hin (by omega)
+    simp only [List.replicate_succ, specRun, specFinal, hstep]
+    refine ⟨?_, ?_⟩
+    · rw [h1, passObs_succ, hn, hz, hl]
+    · have : k + (m + 1) = k + 1 + m := by omega
+      rw [this]; exact h2
+
+/-- the step over a pass boundary when more passes remain -/
+theorem boundary_step (sp : Sp) (K : Nat) (z : Nat) (h : InPass sp c.nf ((K : Int) + 2) z) :
+    (specStep c rf sp .next).2 = (.frame (some (rf 0 z)) : Ans α) ∧
+    (specStep (α := α) c rf sp .next).1.seekPos = 0 ∧
+    InPass (specStep (α := α) c rf sp .next).1 1 ((K : Int) + 1) z := by
+  obtain ⟨hs, hc, hn, hr, hl, hz⟩ := h
+  have hlt : ¬ sp.nxt < c.nf := by omega
+  have hpos : sp.rep > 0 := by omega
+  have h0 : ¬ (sp.rep - 1 = 0) := by omega
+  have hr1 : sp.rep - 1 = (K : Int) + 1 := by omega
+  have hK : ¬ ((K : Int) + 1 = 0) := by omega
+  simp [specStep, hc, hs, hlt, hpos, h0, InPass, hz, hr1, hK]
+
+/-- the step over the last pass boundary -/
+theorem last_step (sp : Sp) (z : Nat) (h : InPass sp c.nf 1 z) :
+    (specStep c rf sp .next).2 = (.stop : Ans α) ∧ (specStep (α := α) c rf sp .next).1.seekPos = 0 ∧
+    (specStep (α := α) c rf sp .next).1.loopNo = some 0 := by
+  obtain ⟨hs, hc, hn, hr, hl, hz⟩ := h
+  have hlt : ¬ sp.nxt < c.nf := by omega
+  simp [specStep, hc, hs, hlt, hr]
+
+/-- a whole pass that starts with a step `sp → sp1` yielding frame 0 -/
+theorem pass_from_step (hnf : 0 < c.nf) (sp : Sp) (ℓ : Int) (z : Nat)
+    (h2 : (specStep c rf sp .next).2 = (.frame (some (rf 0 z)) : Ans α))
+    (hs : (specStep (α := α) c rf sp .next).1.seekPos = 0)
+    (hin : InPass (specStep (α := α) c rf sp .next).1 1 ℓ z) :
+    specRun c rf sp (List.replicate c.nf .next) = passObs rf ℓ z 0 c.nf ∧
+    InPass (specFinal c rf sp (List.replicate c.nf .next)) c.nf ℓ z := by
+  obtain ⟨n, hn⟩ : ∃ n, c.nf = n + 1 := ⟨c.nf - 1, by omega⟩
+  obtain ⟨h1, h3⟩ := inPass_run c rf n _ 1 ℓ z hin (by omega)
+  rw [hn, List.replicate_succ]
+  simp only [specRun, specFinal]
+  refine ⟨?_, ?_⟩
+  · rw [h1, passObs_succ, h2, hs, hin.2.2.2.2.1]
+  · have : n + 1 = 1 + n := by omega
+    rw [this]; exact h3
+
+/-- from the end of a pass with `K + 1` as the repeat count: `K` more passes, labelled
+    `K, K-1, …, 1`, then StopIteration with the image at frame 0 -/
+theorem spec_passes (hnf : 0 < c.nf) (K : Nat) : ∀ (sp : Sp) (z : Nat), InPass sp c.nf ((K : Int) + 1) z →
+    specRun c rf sp (List.replicate (K * c.nf + 1) .next) =
+      (List.range K).flatMap (fun p => passObs rf (((K - p : Nat) : Int)) z 0 c.nf) ++
+        [(⟨.stop, 0, some 0⟩ : Obs α)] := by
+  induction K with
+  | zero =>
+    intro sp z h
+    obtain ⟨a, b, d⟩ := last_step c rf sp z (by simpa using h)
+    simp [specRun, a, b, d]
+  | succ K ih =>
+    intro sp z h
+    have hb := boundary_step c rf sp K z (by
+      have : ((K + 1 : Nat) : Int) + 1 = (K : Int) + 2 := by omega
+      rw [← this]; exact h)
+    obtain ⟨h1, h2⟩ := pass_from_step c rf hnf sp ((K : Int) + 1) z hb.1 hb.2.1 hb.2.2
+    have hsplit : (K + 1) * c.nf + 1 = c.nf + (K * c.nf + 1) := by
+      rw [Nat.add_mul]; omega
+    rw [hsplit, ← List.replicate_append_replicate, specRun_append, h1, ih _ z h2]
+    rw [List.range_succ_eq_map, List.flatMap_cons, List.flatMap_map, List.append_assoc]
+    have hlab : ((K : Int) + 1) = (((K + 1 - 0 : Nat)) : Int) := by simp
+    rw [hlab]
+    congr 2
+    simp only [Nat.succ_eq_add_one, Nat.add_sub_add_right]
+
 end
 end TIV.C11
